@@ -34,16 +34,88 @@ def required_cells(tier):
     return {"method:tempo": 4, "method:pt": 4, "method:meanfield": 3,
             "merged": 10, "total-degeneracy": 1, "no-degeneracy": 1,
             "rotated": 3, "memory:cut": 3, "meanfield:two-species": 2,
-            "shared-bath-read-between-runs": 6}
+            "shared-bath-read-between-runs": 6, "scan": 2,
+            "scan_points": 60}
 
 
 def cases(tier, seed):
     n = 72 if tier == "quick" else 700
-    return [{"kind": "uniq", "seed": seed, "idx": i, "tier": tier}
-            for i in range(n)]
+    out = [{"kind": "uniq", "seed": seed, "idx": i, "tier": tier}
+           for i in range(n)]
+    out += [{"kind": "scan", "seed": seed, "idx": i, "tier": tier}
+            for i in range(4 if tier == "quick" else 24)]
+    return out
+
+
+def run_scan(case):
+    """A parameter scan in one process: many short-lived Bath / Tempo objects
+    with coupling operators whose degeneracy classes sit at different
+    positions (objects of earlier points are released before the next point
+    is set up, as in a loop over a function). Every point must satisfy
+    unique=True == unique=False, whatever was computed before it."""
+    import gc
+    import oqupy
+    i = case["idx"]
+    rng = gen.rng_for(case["seed"], "c06scan", i)
+    dt, nsteps, epsrel = 0.1, 3, 1e-8
+    p = dict(alpha=0.15, zeta=1.0, cutoff=3.0, cutoff_type="exponential",
+             temperature=0.5)
+    params = lib.tempo_params(dt, epsrel, 2, None)
+    base = [[1.0, 1.0, 2.0], [2.0, 1.0, 1.0], [1.0, 2.0, 1.0],
+            [0.0, 1.0, 2.0], [1.0, 1.0, 1.0], [-1.0, 1.0, 1.0],
+            [0.5, -0.5, 0.5], [2.0, 2.0, 1.0], [0.0, 0.0, 1.0],
+            [1.0, 0.0, 1.0]]
+    order = [int(x) for x in rng.permutation(len(base))]
+    h = gen.rand_herm(rng, 3, 0.7)
+    rho0 = gen.rand_state(rng, 3)
+    sysm = oqupy.System(h)
+    violations = []
+    worst = 0.0
+
+    def point(o, uq):
+        corr = gen.make_power_law(p)
+        bath = oqupy.Bath(np.diag(np.array(o) * 0.4).astype(complex), corr)
+        t = oqupy.Tempo(sysm, bath, params, rho0, 0.0, unique=uq)
+        return np.array(t.compute(lib.end_time(0.0, dt, nsteps),
+                                  progress_type="silent").states)
+    npts = 0
+    for sweep in range(3):
+        for k in order:
+            o = base[k]
+            try:
+                a = point(o, False)
+                gc.collect()
+                b = point(o, True)
+                gc.collect()
+            except Exception as exc:   # pylint: disable=broad-except
+                violations.append({
+                    "what": f"scan point {o} (sweep {sweep}): the library "
+                            f"raised {type(exc).__name__}: {str(exc)[:100]}",
+                    "mechanism": "unique-raises", "detail": {"o": o}})
+                continue
+            npts += 1
+            dev = float(np.abs(a - b).max())
+            worst = max(worst, dev)
+            if dev > 2e-6:
+                violations.append({
+                    "what": f"scan point {o} (sweep {sweep}, after "
+                            f"{npts - 1} earlier points in this process): "
+                            f"unique=True differs from unique=False by "
+                            f"{dev:.3e}", "mechanism": "unique-differs",
+                    "detail": {"o": o}})
+            if len(violations) >= 4:
+                break
+    return {"violations": violations[:4], "cells": ["scan"],
+            "monitors": {"scan_points": npts}, "nontrivial": True,
+            "signature": f"scan-{i}", "maxratio": worst / 2e-6,
+            "obs": {"err": worst},
+            "sample": {"kind": "scan", "order": order, "points": npts,
+                       "worst": worst}}
 
 
 def run_case(case):
+    if case.get("kind") == "scan":
+        return run_scan(case)
     import oqupy
     i = case["idx"]
     rng = gen.rng_for(case["seed"], "c06", i)
